@@ -90,6 +90,12 @@ class Ctx:
         b_t = b if isinstance(b, torch.Tensor) else torch.tensor(b, dtype=a.dtype)
         return (a - b_t).abs() <= 1e-9 * (1.0 + b_t.abs())
 
+    def decided_true_in(self, funcname):
+        """did a data-dependent branch inside `funcname` take its True side on this path?  (symbolic run only)"""
+        if not self.symbolic:
+            return False
+        return any(ch["where"].endswith(":" + funcname) and "conds" in ch and ch["chosen"] == 0 for ch in self.eng.choice_log)
+
     def shadow(self, t):
         """concrete value of a tensor at the current witness / replay point, without going through the symbolic mode"""
         with _disable_current_modes():
@@ -315,7 +321,7 @@ def replay(harness, params, model):
 
 # ------------------------------------------------------------------ exploring all paths of one cell
 def explore(harness, params, seed=0, timeout_s=10.0, max_paths=64, engine_opts=None, norm_first=False,
-            on_exception="inconclusive", path_budget_s=60.0):
+            on_exception="inconclusive", path_budget_s=60.0, on_nonreplay="error"):
     """returns a cell report (dict, JSON-able)"""
     t_start = time.time()
     queue = [((), {})]
@@ -401,6 +407,11 @@ def explore(harness, params, seed=0, timeout_s=10.0, max_paths=64, engine_opts=N
                     if ok:
                         report["refuted"] += 1
                         report["violations"].append(entry)
+                    elif on_nonreplay == "inconclusive":
+                        # cells whose code under test contains by-design stabilisation (jitter on near-singular pivots): a real-valued
+                        # counterexample on such a branch is within the float tolerance of the replay and proves nothing either way
+                        report["unknown"] += 1
+                        report["inconclusive"].append(f"{ob.label}: real-valued counterexample not reproduced within the replay tolerance")
                     else:
                         report["errors"].append(f"counterexample for {ob.label} did not replay on the real code: {info}")
                 else:
